@@ -1,4 +1,5 @@
 import Bch.Proofs.HDHeap
+import Bch.Proofs.HDHeapZero
 /-
 C15 — extended keys are independent values; zeroing really erases them.
 
@@ -7,6 +8,7 @@ allocates, shares and writes) on top of the value-level model `Bch/Model/HDKey.l
 Histories are lists of `HOp` executed by `step`/`run` (defined in `Bch/Proofs/HDHeap.lean`):
 `newMaster`, `parse i` (= `NewKeyFromString (String key_i)`), `child i idx`, `neuter i`, `setNet i`,
 `zero i`, `pubKeyBytes i` (every memoising accessor: `Address`, `ECPubKey`, ...).
+The `C15_zeroed_*` theorems say what every operation does when applied to a key that was zeroed.
 All theorems hold for every parameter pack `X : HDExt Pt` of external primitives with `ExtOK X`
 (HMAC-SHA512 returns 64 bytes, Hash160 20 bytes, compressed points 33 bytes, checksum ≥ 4 bytes);
 most need no hypothesis on `X` at all.
@@ -195,6 +197,88 @@ theorem C15_zero_replicate (h : Heap) (i : Nat) (k : HKey) (hi : Inv h) (hk : h.
   have hb : InB h r := hi.bounds k (List.mem_iff_getElem?.mpr ⟨i, hk⟩) r hr
   rw [eq_replicate_of_zeros hz, hl, read_length hb]
 
+/-! ## every operation applied to a zeroed key
+
+For ANY heap `h` and existing key `i`, in the heap `zeroH h i`. The only assumption on the external
+primitives is `X.parse [] = none`: `bchec.ParsePubKey` rejects the empty byte string ("pubkey string
+is empty"); it holds for the pack `realHD` of the driver, whose `parse` rejects every length ≠ 33,
+and for `toy` below. It is needed (see the NEGATIVE example with `toyBad` below): non-hardened public
+derivation parses the key's own — now empty — public key. -/
+
+/-- **C15_zeroed_child.** Deriving a child of a zeroed key fails for every child index `idx` (any
+natural number, hardened or not): the result is an error, no key is created, and the heap — key
+list and buffers — is left exactly as it was (nothing is memoised or allocated). The error is
+exactly `zeroedChildErr`: `ErrDeriveHardFromPublic` for `idx ≥ 2^31` (the zeroed key reports itself
+as public), and for `idx < 2^31` either `ErrInvalidChild` (HMAC of 33 zero bytes ++ index under the
+zero-filled chain code gives an unusable `IL`) or the parser's error for the empty public key
+(`.other`); which of the two depends only on HMAC-SHA512 and the curve. -/
+theorem C15_zeroed_child (hparse : X.parse [] = none) (h : Heap) (i : Nat) (k : HKey)
+    (hk : h.keys[i]? = some k) (idx : Nat) :
+    childH X (zeroH h i) i idx = (zeroH h i, .err (zeroedChildErr X (h.read k.chainCode).length idx)) ∧
+    (step X (zeroH h i) (.child i idx)).1.keys = (zeroH h i).keys ∧
+    (hardenedKeyStart ≤ idx →
+      zeroedChildErr X (h.read k.chainCode).length idx = .deriveHardFromPublic) ∧
+    (idx < hardenedKeyStart →
+      zeroedChildErr X (h.read k.chainCode).length idx = .invalidChild ∨
+      zeroedChildErr X (h.read k.chainCode).length idx = .other) := by
+  have e := childH_zeroH X hparse hk idx
+  refine ⟨e, ?_, (zeroedChildErr_cases X _ idx).1, (zeroedChildErr_cases X _ idx).2⟩
+  simp only [step]; rw [e]
+
+/-- without any assumption on the parser: a hardened child of a zeroed key is always refused, and
+`Child` on a zeroed key can succeed only if the parser accepts the empty string as a public key -/
+theorem C15_zeroed_child_any_parser (h : Heap) (i : Nat) (k : HKey) (hk : h.keys[i]? = some k)
+    (idx : Nat) (c : XKey) :
+    viewAt (zeroH h i) i = some (zeroV (view h k)) ∧
+    (Child X (zeroV (view h k)) idx = .ok c → idx < hardenedKeyStart ∧ (X.parse []).isSome) :=
+  ⟨viewAt_zeroH_same hk, Child_zeroV_ok X⟩
+
+/-- **C15_zeroed_neuter.** `Neuter` of a zeroed key is NOT an error: the zeroed key reports itself
+as public, so `Neuter` takes the documented "already an extended public key" path and returns the
+same key (handle `i`), creating nothing and leaving the heap exactly as it was (this mirrors the Go
+code: `if !k.isPrivate { return k, nil }`). No key material is produced: the returned key is the
+zeroed key itself, whose view is `zeroV _` — empty key, empty version, depth and child number 0,
+and only zero bytes in chain code and fingerprint. -/
+theorem C15_zeroed_neuter (h : Heap) (i : Nat) (k : HKey) (hk : h.keys[i]? = some k) :
+    neuterH X (zeroH h i) i = (zeroH h i, .key i) ∧
+    Neuter X (zeroV (view h k)) = .ok (zeroV (view h k)) ∧
+    viewAt (zeroH h i) i = some (zeroV (view h k)) ∧
+    ((zeroV (view h k)).key = [] ∧ (zeroV (view h k)).version = [] ∧
+      (zeroV (view h k)).isPrivate = false ∧ (zeroV (view h k)).depth = 0 ∧
+      (zeroV (view h k)).childNum = 0 ∧
+      (∀ b ∈ (zeroV (view h k)).chainCode, b = 0) ∧ (∀ b ∈ (zeroV (view h k)).parentFP, b = 0)) :=
+  ⟨neuterH_zeroH X hk, Neuter_zeroV X _, viewAt_zeroH_same hk, zeroV_bytes _⟩
+
+/-- **C15_zeroed_accessors.** The accessors on a zeroed key (the model has one heap-level accessor,
+`pubKeyBytesH`; the Go accessors and the driver's `A`/`E`/`V` operations are compositions of it
+with an external primitive, spelled out here):
+* `pubKeyBytes()` returns the EMPTY byte string, memoises nothing, leaves the heap as it was
+  (it has no error result in Go);
+* `ECPubKey` = `ParsePubKey(pubKeyBytes())` fails: the parser is applied to `[]`;
+* `ECPrivKey`: the key reports `isPrivate = false`, so the result is `ErrNotPrivExtKey`, and the
+  key slice it would have used reads as `[]`;
+* `Address` = `Hash160(pubKeyBytes())`: NOT an error — model and Go code return the address of
+  `Hash160("")`, a constant that does not depend on the heap or on the key (no key material). -/
+theorem C15_zeroed_accessors (hparse : X.parse [] = none) (h : Heap) (i : Nat) (k : HKey)
+    (hk : h.keys[i]? = some k) :
+    pubKeyBytesH X (zeroH h i) i = (zeroH h i, []) ∧
+    X.parse (pubKeyBytesH X (zeroH h i) i).2 = none ∧
+    (∃ k', (zeroH h i).keys[i]? = some k' ∧ k'.isPrivate = false ∧ (zeroH h i).read k'.key = []) ∧
+    X.hash160 (pubKeyBytesH X (zeroH h i) i).2 = X.hash160 [] := by
+  have e := pubKeyBytesH_zeroH X hk
+  refine ⟨e, by rw [e]; exact hparse, ⟨_, zeroH_key' hk, rfl, read_nil _⟩, by rw [e]⟩
+
+/-- **C15_zeroed_string_unparsable** (full: for every pack of external primitives, using the concrete
+Base58 model). The string of a zeroed key, "zeroed extended key", is rejected by `NewKeyFromString`
+with `ErrInvalidKeyLen` (the blank is not a Base58 digit, so it decodes to the empty byte string);
+hence re-parsing the zeroed key's own serialisation yields an error and leaves the heap as it was. -/
+theorem C15_zeroed_string_unparsable (h : Heap) (i : Nat) (k : HKey) (hk : h.keys[i]? = some k) :
+    NewKeyFromString X zeroedString = .error .invalidKeyLen ∧
+    NewKeyFromString X (stringH X (zeroH h i) i) = .error .invalidKeyLen ∧
+    step X (zeroH h i) (.parse i) = (zeroH h i, .err .invalidKeyLen) := by
+  refine ⟨NewKeyFromString_zeroedString X, ?_, parseH_zeroH X hk⟩
+  rw [stringH_zeroH X hk]; exact NewKeyFromString_zeroedString X
+
 end
 
 /-! ## non-vacuity: a toy instance of the external primitives -/
@@ -269,6 +353,59 @@ example : ((run toy {} hist2).keys[0]?.map fun k =>
 -- targetsDestructively is non-trivial in `hist`: only `zero 0` targets key 0, nothing targets key 1
 example : ∀ op ∈ hist.drop 2, ¬ targetsDestructively op 1 := by
   simp [hist, targetsDestructively]
+
+/-! ### instances of the `C15_zeroed_*` theorems
+
+`h2` is the heap after "master, neuter it" (key 0 private, key 1 public); the theorems are applied
+to `zeroH h2 0` and `zeroH h2 1`. -/
+
+def h2 : Heap := run toy {} (hist.take 2)
+
+-- the hypotheses are satisfiable: the toy parser rejects the empty string; keys 0 and 1 exist in `h2`
+example : toy.parse [] = none := by decide
+example : (h2.keys[0]?.map (·.isPrivate), h2.keys[1]?.map (·.isPrivate)) = (some true, some false) := by
+  decide +kernel
+-- before zeroing, key 0 of `h2` does derive children and has a non-trivial string
+example : (h2.keys[0]?.map fun k => match Child toy (view h2 k) 5, Child toy (view h2 k) 0x80000000 with
+    | .ok _, .ok _ => true | _, _ => false) = some true := by decide +kernel
+example : stringH toy h2 0 ≠ zeroedString := by decide +kernel
+-- `C15_zeroed_child` applied: every derivation from the zeroed key 0 is an error and adds no key
+example (idx : Nat) : ∃ e : Err, childH toy (zeroH h2 0) 0 idx = (zeroH h2 0, .err e) :=
+  match hk : h2.keys[0]? with
+  | some k => ⟨_, (C15_zeroed_child toy (by decide) h2 0 k hk idx).1⟩
+  | none => absurd hk (by decide +kernel)
+example : ((childH toy (zeroH h2 0) 0 5).1.keys.length, (childH toy (zeroH h2 0) 0 0x80000000).1.keys.length,
+    match (childH toy (zeroH h2 0) 0 5).2, (childH toy (zeroH h2 0) 0 0x80000000).2 with
+    | .err e, .err e' => some (e, e') | _, _ => none) =
+    (2, 2, some (.invalidChild, .deriveHardFromPublic)) := by decide +kernel
+-- the same for the zeroed public key 1
+example : (match (childH toy (zeroH h2 1) 1 5).2 with | .err e => some e | _ => none) =
+    some .invalidChild := by decide +kernel
+-- `C15_zeroed_neuter`: the same handle comes back, no key is added
+example : ((neuterH toy (zeroH h2 0) 0).1.keys.length,
+    match (neuterH toy (zeroH h2 0) 0).2 with | .key j => some j | _ => none) = (2, some 0) := by
+  decide +kernel
+-- `C15_zeroed_accessors`: empty public key bytes
+example : (pubKeyBytesH toy (zeroH h2 0) 0).2 = [] := by decide +kernel
+example : (pubKeyBytesH toy h2 0).2 ≠ [] := by decide +kernel
+-- `C15_zeroed_string_unparsable`
+example : (match NewKeyFromString toy (stringH toy (zeroH h2 0) 0) with
+    | .error e => some e | .ok _ => none) = some .invalidKeyLen := by decide +kernel
+
+/-- a pack whose HMAC gives a usable `IL` on the zeroed key's data: then the error of a non-hardened
+derivation from a zeroed key is the parser's (`.other`) — both alternatives of `C15_zeroed_child` occur -/
+def toy2 : HDExt Nat := { toy with hmac512 := fun _ d => (d.reverse ++ List.replicate 64 7).take 64 }
+
+example : toy2.parse [] = none := by decide
+example : zeroedChildErr toy2 32 5 = .other := by decide +kernel
+example : zeroedChildErr toy 32 5 = .invalidChild := by decide +kernel
+
+/-- NEGATIVE: the hypothesis `X.parse [] = none` of `C15_zeroed_child` is needed. With a parser that
+accepts the empty byte string, a non-hardened `Child` of a zeroed key succeeds. -/
+def toyBad : HDExt Nat := { toy2 with parse := fun _ => some 1 }
+
+example : (match Child toyBad (zeroV (⟨[], [], 0, [], 0, [], false⟩ : XKey)) 5 with
+    | .ok _ => true | .error _ => false) = true := by decide +kernel
 
 /-! ## negative example: the pre-fix `Neuter` violates the invariant
 
